@@ -141,6 +141,11 @@ def check (c : Cache A O) (a : Asg A) : Bool × Cache A O :=
   let r := c.seen.check a'
   (r.1, { c with seen := r.2 })
 
+/-- `IndexedCache.check` as repaired by R34: a cache WITHOUT keys (the result cache of a comparison between
+    constants) never claims to cover a lookup; with at least one key it is `check`. -/
+def checkK (c : Cache A O) (a : Asg A) : Bool × Cache A O :=
+  if c.keys.isEmpty then (false, c) else c.check a
+
 def retrieve (c : Cache A O) (a : Asg A) : List (Asg A × O) :=
   if c.trie.isEmptyNode then [] else Trie.retr a c.keys c.trie a
 
